@@ -183,7 +183,7 @@ def run_shard(spec, ctx):
         shutil.rmtree(workdir, ignore_errors=True)
     for k in list(ctx.extra):
         if k.startswith('bytes_'):
-            ctx.extra[k] = len(ctx.extra[k])
+            ctx.extra[k] = sorted(ctx.extra[k])
 
 
 def replay(case, ctx):
@@ -222,9 +222,14 @@ def gates(m, tier):
             missed.append('%s seen %d times' % (k, f.get(k, 0)))
     if mon.get('round_trips_observed', 0) < 200 or mon.get('reference_reads_compared', 0) < 200:
         missed.append('too few round trips observed')
+    for name, _ in rc.REGIONS:
+        seen = set()
+        for ex in m['extra']:
+            seen.update(ex.get('bytes_' + name, []))
+        m['features']['byte_values_seen_in_' + name] = len(seen)
+        if len(seen) < 256:
+            missed.append('only %d byte values seen in %s' % (len(seen), name))
     for ex in m['extra']:
         for name, _ in rc.REGIONS:
-            if ex.get('bytes_' + name, 256) < 256:
-                missed.append('shard saw only %d byte values in %s' % (ex['bytes_' + name], name))
-                break
+            ex.pop('bytes_' + name, None)
     return missed
